@@ -350,4 +350,76 @@ end rotation
 
 /-! ### non-vacuity of the hypotheses -/
 
+
+
+section lift
+variable {S : Type}
+
+theorem getD_mapIdx_nil {α : Type} (F : Nat → List α → List α) (hF : ∀ i, F i [] = []) (l : List (List α)) (n : Nat) : (l.mapIdx F).getD n [] = F n (l.getD n []) := by
+  simp only [List.getD_eq_getElem?_getD, List.getElem?_mapIdx]
+  cases l[n]? <;> simp [hF]
+
+/-- the body a point-wise, (point index, coordinate index)-aware transform produces -/
+def mapCoordsN (isZero : S → Bool) (g : Nat → Nat → S → S) (fps' : S) (b : PBody S) : PBody S :=
+  mkBody .numpy isZero fps' (b.data.map (List.map fun pe => pe.mapIdx fun n pt => pt.mapIdx (g n))) b.conf (some b.missing)
+
+theorem zipWith_kpt_mapIdx' (isZero : S → Bool) (F : Nat → List S → List S) (hF : ∀ i pt, (F i pt).length = pt.length) (pe : List (List S)) (cp : List S) :
+    List.zipWith (kpt isZero) (pe.mapIdx F) cp = List.zipWith (kpt isZero) pe cp := by
+  induction pe generalizing F cp with
+  | nil => simp
+  | cons pt rest ih =>
+    cases cp with
+    | nil => simp
+    | cons c cs =>
+      simp only [List.mapIdx_cons, List.zipWith_cons_cons]
+      rw [ih (fun i => F (i + 1)) (fun i pt => hF (i + 1) pt) cs, kpt_eq_replicate, kpt_eq_replicate, hF]
+
+theorem mapCoordsN_eq {isZero : S → Bool} {F P N D : Nat} {b : PBody S} (h : BInv isZero F P N D b) (g : Nat → Nat → S → S) (fps' : S) :
+    mapCoordsN isZero g fps' b = ⟨fps', b.data.map (List.map fun pe => pe.mapIdx fun n pt => pt.mapIdx (g n)), b.conf, b.missing⟩ := by
+  unfold mapCoordsN
+  have hm : b.missing = deriveMissing isZero (b.data.map (List.map fun pe => pe.mapIdx fun n pt => pt.mapIdx (g n))) b.conf := by
+    rw [h.consistent]
+    simp only [deriveMissing_eq, List.zipWith_map_left]
+    congr 1; funext fr cf
+    congr 1; funext pe cp
+    exact (zipWith_kpt_mapIdx' isZero _ (fun i pt => by simp) pe cp).symm
+  rw [mkBody_mkC _ _ _ _ _ _ hm, mkC, ← hm]
+
+theorem cellVals_mapCoordsN [Inhabited S] {isZero : S → Bool} {F P N D : Nat} {b : PBody S} (h : BInv isZero F P N D b) (g : Nat → Nat → S → S) (fps' : S) (n d : Nat) :
+    cellVals (mapCoordsN isZero g fps' b) n d = (cellVals b n d).map (Option.map (g n d)) := by
+  rw [mapCoordsN_eq h]
+  unfold cellVals
+  simp only [List.zip_map_left, List.flatMap_map, List.map_flatMap, List.map_map]
+  rw [h.consistent, deriveMissing_eq]
+  apply flatMap_congr_mem
+  intro ⟨fr, mfr⟩ hx
+  obtain ⟨hfr, cf, hcf, rfl⟩ := mem_zip_zipWith _ hx
+  simp only [Function.comp, Prod.map_apply, id, List.zip_map_left, List.map_map]
+  apply List.map_congr_left
+  intro ⟨pe, mpe⟩ hy
+  obtain ⟨hpe, cp, hcp, rfl⟩ := mem_zip_zipWith _ hy
+  simp only [Function.comp, Prod.map_apply, id]
+  have hlen : pe.length = cp.length := by
+    rw [((h.data.2 fr hfr).2 pe hpe).1, (h.conf.2 cf hcf).2 cp hcp]
+  have hfl : (List.zipWith (kpt isZero) pe cp).getD n [] = kpt isZero (pe.getD n []) (cp.getD n default) := by
+    have := getD_zipWith' (kpt isZero) pe cp hlen n [] default
+    simpa [kpt] using this
+  by_cases hflag : ((List.zipWith (kpt isZero) pe cp).getD n []).getD d true = true
+  · rw [if_pos hflag, if_pos hflag]; rfl
+  · have hflag' : ((List.zipWith (kpt isZero) pe cp).getD n []).getD d true = false := by simpa using hflag
+    simp only [hflag', Bool.false_eq_true, if_false, Option.map_some]
+    congr 1
+    have hd : d < (pe.getD n []).length := by
+      have := getD_flag_lt _ d hflag'
+      rw [hfl, kpt_length] at this
+      exact this
+    rw [getD_mapIdx_nil (fun n pt => pt.mapIdx (g n)) (by simp) pe n, getD_mapIdx_lt (g n) _ d hd]
+
+
+end lift
+
+theorem getD_range_map' {α : Type} (n i : Nat) (f : Nat → α) (d : α) (h : i < n) : ((List.range n).map f).getD i d = f i := by
+  simp [List.getD_eq_getElem?_getD, h]
+
+
 end PoseVerif.Props.C13
